@@ -33,12 +33,12 @@ STUBS = [
     'error classes are compared only where the state is independent of timing (before accept, after close, double accept, invalid close '
     'code, wrong payload type); operations racing with a client disconnect may raise WebSocketDisconnected or succeed',
 ]
-OUTSIDE = ['msgpack binary media (not installed)', 'scripts longer than 4 operations', 'custom WebSocket error handlers beyond one']
+OUTSIDE = ['msgpack binary media (not installed)', 'scripts longer than 4 operations (plus a few send-only scripts of up to 7)', 'custom WebSocket error handlers beyond one']
 BUDGET = {'quick': 300, 'thorough': 900}
 
 OPS = {0: 'accept', 1: 'close', 2: 'send_text', 3: 'receive_text', 4: 'raise HTTPNotFound', 5: 'raise ValueError', 6: 'close(code)',
        7: "accept(subprotocol)", 8: 'send_data', 9: 'receive_data', 10: 'send_media', 11: 'receive_media', 12: 'yield',
-       13: 'raise HTTPStatus', 14: 'return', 15: 'send_text (errors propagate)', 16: 'receive_text (errors propagate)'}
+       13: 'raise HTTPStatus', 14: 'return', 15: 'send_text (errors propagate)', 16: 'receive_text (errors propagate)', 17: 'send_data(bytearray), buffer reused'}
 LAST = {}      # the loop of the last session and the tasks it left unfinished (read by C18's app-level check)
 SCRIPT = {'ops': (), 'code': 1000}
 LOG = []
@@ -75,6 +75,10 @@ class _Res:
                     LOG.append(('got', 'media', await ws.receive_media()))
                 elif op == 12:
                     await asyncio.sleep(0)
+                elif op == 17:
+                    buf = bytearray(b'\x05\x06')
+                    await ws.send_data(buf)
+                    buf[0] = 0x7f          # the responder reuses its buffer: what was sent must not change
                 elif op == 15:
                     await ws.send_text('hi')
                 elif op == 16:
@@ -247,6 +251,12 @@ def monitor(sent, ver):
         elif t == 'websocket.send':
             if state != 'open':
                 return 'data sent in state %s' % state
+            if ev.get('bytes') is not None and type(ev['bytes']) is not bytes:
+                return 'binary payload handed to the server as %s, not bytes' % type(ev['bytes']).__name__
+            if ev.get('text') is not None and type(ev['text']) is not str:
+                return 'text payload handed to the server as %s, not str' % type(ev['text']).__name__
+            if ev.get('bytes') is not None and ev['bytes'] not in (b'\x01', b'\x05\x06') and b'"m"' not in ev['bytes']:
+                return 'binary payload %r is none of the payloads the responder sent' % (ev['bytes'],)
         elif t == 'websocket.close':
             closes += 1
             if 'reason' in ev and ver in ('2.0', '2.1'):
@@ -427,6 +437,11 @@ def partitions(tier, seed):
             queue = (0, 2)[i % 2]
             P.append(_part(s, queue, 4 if queue else 2, 150))
         P.append(_part((0, 12, 12, 3, 3), 2, 5, 200))
+        # a send-only responder while the receive queue fills up and the client leaves
+        P.append(_part((0, 12, 12, 12, 2), 1, 8, 200))
+        P.append(_part((0, 12, 12, 12, 12, 2), 2, 10, 250))
+        P.append(_part((0, 17, 8), 0, 2, 100))
+        P.append(_part((0, 17, 2), 2, 4, 150))
         P.append(_part((0, 12, 3, 12, 9), 4, 5, 200))
         P.append(_part((0, 1), 0, 1, 100, path_i=1))
         P.append(_part((0, 1), 2, 1, 100, path_i=2))
@@ -440,4 +455,8 @@ def partitions(tier, seed):
         for path_i in (1, 2):
             for queue in (0, 2):
                 P.append(_part((0, 1), queue, 1, 200, path_i=path_i))
+        for queue in (1, 2, 3):
+            P.append(_part((0,) + (12,) * (queue + 2) + (2,), queue, 8 + 2 * queue, 600))
+            P.append(_part((0,) + (12,) * (queue + 2) + (8, 1), queue, 8 + 2 * queue, 600))
+            P.append(_part((0, 17, 8, 17), queue, 4, 300))
     return P
